@@ -581,9 +581,34 @@ def corpus_cases(prop, restart):
          {'k': 'chmod', 'p': 'a/f', 'mode': 0o600}, {'k': 'read', 'p': 'a/g', 'off': 0, 'len': 8}, {'k': 'open', 'p': 'a/f', 'fl': 'wt'}, {'k': 'rmdir', 'p': 'a'}], upper=False)
     return cs
 
-def explore(prop, seed, n, restart, bindir, tag, with_corpus=True):
+def pattern_cases(restart, full=False):
+    """Deterministic enumeration: one name ('f') held by every 3- and 4-layer stack (1 upper + 2 or 3 lowers) in every
+    combination of {directory, regular file, symlink, whiteout, absent}; each directory layer has a child only it
+    has (NAMES[layer]) and a child every directory layer has ('e', content = layer number).  No operations: the
+    initial view (and, for C11, the restarted view) is what is compared."""
+    import itertools
+    cs = []
+    for nlayers in (3, 4):
+        # quick tier: every 3-layer pattern, 4-layer patterns without symlinks; thorough: everything
+        for kinds in itertools.product('dflw-' if (nlayers == 3 or full) else 'dfw-', repeat=nlayers):
+            layers = {}
+            for i, kd in enumerate(kinds):
+                ch = {}
+                if kd == 'd':
+                    ch['f'] = ('d', 0o755, {}, {NAMES[i]: ['f', 0o644, bytearray(b'u%d' % i), {}, 900 + 10 * i],
+                                                 'e': ['f', 0o644, bytearray(b'%d' % i), {}, 901 + 10 * i]})
+                elif kd == 'f': ch['f'] = ['f', 0o600, bytearray(b'F%d' % i), {}, 902 + 10 * i]
+                elif kd == 'l': ch['f'] = ('l', b'L%d' % i)
+                elif kd == 'w': ch['f'] = ('w',)
+                layers[i] = ('d', 0o755, {}, ch)
+            cs.append({'id': 'p%d%s' % (nlayers, ''.join(kinds).replace('-', 'n')), 'upper': True, 'nlow': nlayers - 1,
+                       'layers': layers, 'restart': restart, 'ops': []})
+    return cs
+
+def explore(prop, seed, n, restart, bindir, tag, with_corpus=True, patterns=False):
     r = random.Random(seed)
-    cases = (corpus_cases(prop, restart) if with_corpus else []) + [gen_case(r, str(i), restart) for i in range(n)]
+    cases = ((corpus_cases(prop, restart) if with_corpus else []) + (pattern_cases(restart, full=(patterns == 'full')) if patterns else [])
+             + [gen_case(r, str(i), restart) for i in range(n)])
     obs = run_harness(cases, bindir, tag)
     good = []; bad_harness = []
     for c in cases:
@@ -631,3 +656,8 @@ def locate_tie(name, cases, obs):
         ex.append('tie_first_bad %s %s %s %s' % (u, ls, coq_hash(obs[c['id']]['view0']), coq_expects(c, obs[c['id']])))
     vals, errs = coq_eval_values(name, COQ_HEADER, ex, shard=max(1, len(ex) // NPROC + 1))
     return [parse_first_bad(v) for v in vals]
+
+def is_pattern(c): return c['id'].startswith('p3') or c['id'].startswith('p4')
+def expr_pattern(c, ob):
+    u, ls = coq_layers(c)
+    return '(check_pattern %s %s %s)' % (u, ls, coq_hash(ob['view0']))
